@@ -456,3 +456,46 @@ V('c10-twin-poll-inline', 'C10', 'C10.HEAPMIN', BR,
   "        self._next_run = self._loop.call_at(\n            millis_to_seconds(self._min_time_between_queries_millis + now_millis), self._process_ready_types\n        )", expect='silent')
 V('c10-twin-backoff-mult', 'C10', 'C10.CONST', BR,
   "self._loop.call_later(self._startup_queries_sent**2, self._process_startup_queries)", "self._loop.call_later(self._startup_queries_sent * self._startup_queries_sent, self._process_startup_queries)", expect='silent')
+
+OUTF = '_protocol/outgoing.py'
+# ---------------------------------------------------------------- C14
+V('c14-short-size-1', 'C14', 'C14.ACCOUNT', OUTF,
+  "        self.data.append(self._get_short(value))\n        self.size += 2", "        self.data.append(self._get_short(value))\n        self.size += 1")
+V('c14-int-size-2', 'C14', 'C14.ACCOUNT', OUTF,
+  "            self.data.append(PACK_LONG(value_as_int))\n        self.size += 4", "            self.data.append(PACK_LONG(value_as_int))\n        self.size += 2")
+V('c14-string-not-counted', 'C14', 'C14.ACCOUNT', OUTF,
+  "        self.data.append(value)\n        self.size += len(value)", "        self.data.append(value)")
+V('c14-short-format', 'C14', 'C14.ACCOUNT', OUTF, "PACK_SHORT = Struct('>H').pack", "PACK_SHORT = Struct('>L').pack")
+V('c14-header-five', 'C14', 'C14.ACCOUNT', OUTF,
+  "            if self.multicast:\n                self._insert_short_at_start(0)\n            else:\n                self._insert_short_at_start(self.id)",
+  "            if not self.multicast:\n                self._insert_short_at_start(self.id)")
+V('c14-size-reset-zero', 'C14', 'C14.ACCOUNT', OUTF,
+  "        self.data = []\n        self.size = _DNS_PACKET_HEADER_LEN\n        self.allow_long = True", "        self.data = []\n        self.size = 0\n        self.allow_long = True")
+V('c14-rdlength-off-by-one', 'C14', 'C14.ACCOUNT', OUTF,
+  "        for d in self.data[index + 1 :]:", "        for d in self.data[index:]:")
+V('c14-limit-lt', 'C14', 'C14.LIMIT', OUTF, "        if self.size <= len_limit:", "        if self.size < len_limit:")
+V('c14-always-long', 'C14', 'C14.LIMIT', OUTF, "        len_limit = _MAX_MSG_ABSOLUTE if self.allow_long else _MAX_MSG_TYPICAL\n        self.allow_long = False", "        len_limit = _MAX_MSG_ABSOLUTE if self.allow_long else _MAX_MSG_TYPICAL")
+V('c14-question-ignores-limit', 'C14', 'C14.LIMIT', OUTF,
+  "        self._write_record_class(question)\n        return self._check_data_limit_or_rollback(start_data_length, start_size)",
+  "        self._write_record_class(question)\n        self._check_data_limit_or_rollback(start_data_length, start_size)\n        return True")
+V('c14-sender-no-drop', 'C14', 'C14.LIMIT', CORE,
+  "            if len(packet) > _MAX_MSG_ABSOLUTE:", "            if len(packet) > _MAX_MSG_ABSOLUTE * 8:")
+V('c14-offset-wrong-count', 'C14', 'C14.SECTIONS', OUTF,
+  "            answer_offset += answers_written", "            answer_offset += questions_written")
+V('c14-header-counts-swapped', 'C14', 'C14.SECTIONS', OUTF,
+  "            self._insert_short_at_start(additionals_written)\n            self._insert_short_at_start(authorities_written)", "            self._insert_short_at_start(authorities_written)\n            self._insert_short_at_start(additionals_written)")
+V('c14-count-before-write', 'C14', 'C14.SECTIONS', OUTF,
+  "        for record in records[offset:]:\n            if not self._write_record(record, 0):\n                break\n            records_written += 1",
+  "        for record in records[offset:]:\n            records_written += 1\n            if not self._write_record(record, 0):\n                break")
+V('c14-continue-after-failure', 'C14', 'C14.SECTIONS', OUTF,
+  "            if not self._write_question(question):\n                break\n            questions_written += 1", "            if not self._write_question(question):\n                continue\n            questions_written += 1")
+V('c14-more-wrong-list', 'C14', 'C14.SECTIONS', OUTF,
+  "            or authority_offset < len(self.authorities)", "            or authority_offset < len(self.additionals)")
+V('c14-authorities-from-zero', 'C14', 'C14.SECTIONS', OUTF,
+  "self._write_records_from_offset(self.authorities, authority_offset)", "self._write_records_from_offset(self.authorities, additional_offset)")
+V('c14-tc-on-responses', 'C14', 'C14.TC', OUTF, "            if has_more_to_add and self.is_query():", "            if has_more_to_add:")
+V('c14-tc-never', 'C14', 'C14.TC', OUTF, "                self._insert_short_at_start(self.flags | _FLAGS_TC)", "                self._insert_short_at_start(self.flags)")
+V('c14-id-on-multicast', 'C14', 'C14.TC', OUTF, "            if self.multicast:\n                self._insert_short_at_start(0)", "            if not self.multicast:\n                self._insert_short_at_start(0)")
+# twins
+V('c14-twin-limit-flipped', 'C14', 'C14.LIMIT', OUTF, "        if self.size <= len_limit:", "        if not self.size > len_limit:", expect='silent')
+V('c14-twin-tc-nested', 'C14', 'C14.TC', OUTF, "            if has_more_to_add and self.is_query():", "            if self.is_query() and has_more_to_add is True:", expect='silent')
